@@ -63,7 +63,7 @@ def case_s(draw):
     layer = draw(st.sampled_from(["raw", "raw", "raw", "web_sync", "web_async", "web_stream"]))
     hdr_async = draw(st.sampled_from(["sync", "now", "hold"]))
     data_async = draw(st.sampled_from(["sync", "now", "hold"]))
-    respond = draw(st.sampled_from(["immediate", "immediate", "deferred", "never"]))
+    respond = draw(st.sampled_from(["immediate", "immediate", "deferred", "never", "in_headers", "in_data"]))
     where = draw(st.sampled_from(["headers", "body", "body", "complete", "complete", "any"]))
     frac = draw(st.integers(0, 1000))
     event = draw(st.sampled_from(["fin", "rst", "error", "timeout", "none", "fin", "rst"]))
@@ -162,11 +162,17 @@ def run_scenario(case):
         def headers_received(self, start_line, headers):
             if case.get("raise_in") == "headers":
                 raise RuntimeError("application error in headers_received")
+            if case["respond"] == "in_headers":
+                # the application answers before the request has been read completely
+                respond(self.conn)
             return gate(case["hdr_async"])
 
         def data_received(self, chunk):
             if case.get("raise_in") == "data":
                 raise RuntimeError("application error in data_received")
+            if case["respond"] == "in_data" and not st_.get("responded_early"):
+                st_["responded_early"] = True
+                respond(self.conn)
             return gate(case["data_async"])
 
         def finish(self):
@@ -327,11 +333,13 @@ def run_case(ctx, case):
         got = b"".join(r["chunks"])
         if not body.startswith(got):
             ctx.fail("C05.chunks_not_a_prefix_of_body", dict(info, got=got[:60], body=body[:60]))
-        if r["finish"] and got != body and case.get("raise_in", "none") == "none":
+        if r["finish"] and got != body and case.get("raise_in", "none") == "none" and case["respond"] not in ("in_headers", "in_data"):
             ctx.fail("C05.finish_with_incomplete_body", dict(info, got_n=len(got), body_n=len(body)))
     if case.get("raise_in", "none") != "none":
         labels.add("app_raises_in_" + case["raise_in"])
-    if cut >= total and case["event"] == "none" and case.get("raise_in", "none") == "none":
+    if case["respond"] in ("in_headers", "in_data"):
+        labels.add("responds_before_request_read")
+    if cut >= total and case["event"] == "none" and case.get("raise_in", "none") == "none" and case["respond"] not in ("in_headers", "in_data"):
         labels.add("complete_no_fault")
         if not started or started[0]["finish"] != 1:
             ctx.fail("C05.complete_request_not_finished", info)
@@ -388,6 +396,12 @@ def offsets_cases(n_requests):
                 for cut in range(0, len(head) + len(payload) + 1):
                     for event in ("fin", "rst", "error"):
                         yield dict(base, cut=cut, event=event)
+                if layer == "raw":
+                    # the application answers before the request is fully read; every offset, no fault and FIN
+                    for early in ("in_headers", "in_data"):
+                        for cut in range(len(head), len(head) + len(payload) + 1):
+                            for event in ("none", "fin"):
+                                yield dict(base, respond=early, cut=cut, event=event)
 
 
 PARTS = {"main": run_case, "offsets": run_case}
